@@ -3,11 +3,6 @@
 // sequence `chars_of(s, g)` of character texts (code points or grapheme clusters); `Character::is_whitespace`
 // is the uninterpreted predicate `ch_ws` of the character's text; `Character == Character` is text equality.
 // (The index arithmetic of the real CharString is verified separately in c16_windows.rs.)
-#[derive(Debug)]
-pub struct AnyhowError;
-#[verifier::external_body]
-fn vt_anyhow() -> AnyhowError { AnyhowError }
-pub type VtResult<T> = Result<T, AnyhowError>;
 
 pub uninterp spec fn ch_ws(s: Seq<char>) -> bool;
 pub open spec fn space() -> Seq<char> { seq![' '] }
